@@ -214,9 +214,11 @@ def chkStartOnce (sp : SpecSt) (op : Op) (o : Obs) : Bool := (postDts sp op o).a
 def chkStarted (sp : SpecSt) (op : Op) (o : Obs) : Bool :=
   (postDts sp op o).all (fun d => !(d.alive && d.trig != 0) || d.starts ≥ 1)
 
+/-- A fixed downtime inside its window has taken effect once the start timer has fired or it has just
+    been created (that it then has requested DowntimeStart is the previous clause). -/
 def chkFixedStarted (sp : SpecSt) (op : Op) (o : Obs) : Bool :=
   (postDts sp op o).all (fun d =>
-    !(d.alive && d.fixed && (timerFired sp op || isAddOf op o d.id) && d.inEffect op.now) || (d.trig != 0 && d.starts ≥ 1))
+    !(d.alive && d.fixed && (timerFired sp op || isAddOf op o d.id) && d.inEffect op.now) || d.trig != 0)
 
 /-- One DowntimeEnd, exactly for a downtime that took effect and now ends or is removed. -/
 def chkEndOnce (sp : SpecSt) (op : Op) (o : Obs) : Bool :=
